@@ -304,6 +304,9 @@ func (fv *FnVerifier) execInstr(in ssa.Instruction, st *State) {
 		for i := len(fv.defers) - 1; i >= 0; i-- {
 			d := fv.defers[i]
 			if !d.Block().Dominates(fv.curBlock) {
+				if !blockReaches(d.Block(), fv.curBlock) {
+					continue // registered after this return (early-return shape): not executed on this path
+				}
 				unsupported("conditional defer")
 			}
 			fv.execCallCommon(d.Common(), nil, st, d.Pos())
